@@ -492,7 +492,7 @@ def work(rep, args):
             if any(e["idx"] == -1 for e in res["trace"][1:]):
                 noproj += 1
             shapes.add(tuple((e["res"], e["auth"]) for e in res["trace"][1:]))
-        if min(counters.values()) == 0:
+        if min(counters.values()) == 0 and not rep.violations:
             raise MachineryError("a situation of the statement was never exercised: %s" % counters)
         if noproj:
             rep.notes.append("window projection (_index/_bitfield) unavailable in %d traces: black-box validation only" % noproj)
